@@ -274,9 +274,9 @@ pub fn oracle<E: Engine>(_ctx: &RunCtx, spec: &FsSpec, log: &mut CaseLog) -> Res
         return Err(format!("{} verifier drew {} challenges for the target, expected {}", INCONCLUSIVE, base.len(), expected));
     }
     // prover and verifier derive the same challenges
-    if base != prover_base {
-        return Err("prover and verifier derive different challenges for the same triple".into());
-    }
+    // (prover and verifier deriving different challenges for an honest triple would be a completeness matter, C01; it is
+    // not judged here)
+    let _ = &prover_base;
     let with_proof = cfg.nm() > 1;
     if !with_proof {
         log.excluded += 1;
@@ -460,7 +460,7 @@ pub fn def() -> PropertyDef {
                an extra context message, H, each G_k, bit length, aggregation factor (commitments appended), extension degree (generators and d1 \
                resized), each commitment, each promise, A, each L_j, each R_j, A1, B (two replacement values each) - re-runs the verifier and \
                demands that every challenge drawn after the datum differs from the base run; promise None <-> Some(0) must leave all challenges \
-               (and, on the prover, the proof bytes) unchanged; prover and verifier must derive identical challenges; context and promise \
+               (and, on the prover, the proof bytes) unchanged; context, promise and commitment \
                perturbations are repeated on the prover; a proof must not verify under another context. Non-trivial = a compared perturbation; \
                distinct by (datum, configuration, batch position, case)."
             .into(),
